@@ -175,6 +175,14 @@ func (env *SpecEnv) eval(e *SExpr, hint types.Type) Val {
 		case "^":
 			x := env.eval(e.Args[0], hint)
 			return Val{T: x.T, S: app("bvnot", x.S)}
+		case "*":
+			x := env.eval(e.Args[0], nil)
+			pt, ok := under(x.T).(*types.Pointer)
+			if !ok {
+				env.fail(e, "* needs a pointer")
+			}
+			l := &Loc{Ref: x.S, BaseT: pt.Elem(), T: pt.Elem()}
+			return Val{T: pt.Elem(), S: vc.loadLoc(env.mem, l)}
 		case "&":
 			// address of a struct-valued field of a pointed-to struct: &p.f
 			se := e.Args[0]
@@ -448,9 +456,11 @@ func (env *SpecEnv) index(e *SExpr) Val {
 		comp := vc.elemComp(et)
 		return Val{T: et, S: app("select", app("select", vc.get(env.mem, comp), app("sarr", b.S)), app("bvadd", app("soff", b.S), i))}
 	case *types.Map:
+		// Go semantics: the zero value for absent keys (and for a nil map)
 		k := env.eval(e.Args[1], u.Key())
-		_, val, _ := vc.mapComps(u)
-		return Val{T: u.Elem(), S: app("select", app("select", vc.get(env.mem, val), b.S), k.S)}
+		dom, val, _ := vc.mapComps(u)
+		has := and(not(eq(b.S, "0")), app("select", app("select", vc.get(env.mem, dom), b.S), k.S))
+		return Val{T: u.Elem(), S: ite(has, app("select", app("select", vc.get(env.mem, val), b.S), k.S), vc.zero(u.Elem()))}
 	case *types.Array:
 		i := env.toBV64(env.eval(e.Args[1], tInt))
 		return Val{T: u.Elem(), S: app("select", b.S, i)}
@@ -677,6 +687,28 @@ func (env *SpecEnv) call(e *SExpr, hint types.Type) Val {
 		n := bvLit(64, uint64(flatLen(et)))
 		idx := app("bvadd", app("bvmul", app("bvadd", app("soff", s.S), i), n), j)
 		return Val{T: leafType(et), S: app("select", app("select", vc.get(env.mem, comp), app("sarr", s.S)), idx)}
+	case "pure":
+		// pure(T, "name", args...): the uninterpreted function the engine uses for a pure library call
+		if len(args) < 2 {
+			env.fail(e, "pure(T, name, args...)")
+		}
+		tt := args[0].Name
+		if args[0].Op != "type" && args[0].Op != "ident" {
+			tt = args[0].Src
+		}
+		rt := env.resolveType(tt)
+		fname, err := strconv.Unquote(args[1].Name)
+		if err != nil {
+			env.fail(e, "pure: function name must be a string literal")
+		}
+		var sorts, terms []string
+		for _, a := range args[2:] {
+			v := env.eval(a, nil)
+			sorts = append(sorts, env.sortOf(v))
+			terms = append(terms, v.S)
+		}
+		f := vc.declareFun("pure:"+fname, sorts, vc.sortOf(rt))
+		return Val{T: rt, S: app(f, terms...)}
 	case "elemat":
 		// elemat(s, i): element at absolute index i of the backing array of slice s
 		need(2)
